@@ -78,6 +78,23 @@ def build_chart(spec, fmt, strings, lib):
                    [strings.make(v) for v in (spec.get("extra") or [])]
             real = lib.SMChart.from_msd(vals)
             model = RefSMChart([v.strip() for v in spec["fields"]], spec.get("extra"))
+        elif src == "ctor":
+            # an empty SMChart() filled in field by field, in any order, through
+            # attributes or keys (insertion order of the mapping = the order used)
+            real = lib.SMChart()
+            model = RefSMChart.from_items([])
+            via = spec.get("via", "attr")
+            for j in spec["order"]:
+                k = SM_FIELDS[j % 6]
+                v = spec["fields"][j % 6]
+                if via == "attr":
+                    setattr(real, k.lower(), strings.make(v))
+                else:
+                    real[k] = strings.make(v)
+                model.set(k, v)
+            if spec.get("extra"):
+                real.extradata = [strings.make(x) for x in spec["extra"]]
+                model.extra = list(spec["extra"])
         else:
             raise ValueError(src)
         return real, model
@@ -220,6 +237,39 @@ def apply_op(real_sf, model_sf, op, strings, lib, fmt):
             return None
         return outcome_of(lambda: real.move_to_end(k, last)), \
             outcome_of(lambda: model.move_to_end(k, last))
+    # ---- inherited OrderedDict mutators that do not go through __setitem__/__delitem__
+    if name == "dict_pop":
+        if is_smchart:
+            return None
+        k = op["key"]
+
+        def mf():
+            v = model.get(k)
+            model.delete(k)
+            return v
+        return outcome_of(lambda: real.pop(k)), outcome_of(mf)
+    if name == "dict_popitem":
+        if is_smchart:
+            return None
+        last = bool(op.get("last", True))
+
+        def mf():
+            if not model.items:
+                raise KeyError("empty")
+            it = model.items.pop(-1 if last else 0)
+            return [it[0], it[1]]
+        return outcome_of(lambda: list(real.popitem(last))), outcome_of(mf)
+    if name == "dict_setdefault":
+        if is_smchart:
+            return None
+        k = op["key"]
+        v = strings.make(op["value"], op.get("share"))
+
+        def mf():
+            if not model.has(k):
+                model.set(k, model_value(op["value"]))
+            return model.get(k)
+        return outcome_of(lambda: real.setdefault(k, v)), outcome_of(mf)
     if name == "set_attr":
         a = op["attr"]
         if a not in ATTRS[model.kind]:
